@@ -190,6 +190,26 @@ theorem inv_step (s : SI) (hinv : s.Inv) (h' : Nat) (op : Op) : (s.step h' op).1
         · exact Nat.le_succ _
     omega
 
+/-- every state reachable from the empty database by ANY interleaving of statements of any handles -/
+def reach (ops : List (Nat × Op)) : SI := ops.foldl (fun s hop => (s.step hop.1 hop.2).1) {}
+
+/-- the invariant holds in every reachable state, for every history -/
+theorem inv_reachable (ops : List (Nat × Op)) : (reach ops).Inv := by
+  unfold reach
+  suffices ∀ (s : SI), s.Inv → (ops.foldl (fun s hop => (s.step hop.1 hop.2).1) s).Inv from
+    this {} inv_init
+  induction ops with
+  | nil => intro s h; exact h
+  | cons hop ops ih => intro s h; exact ih _ (inv_step s h hop.1 hop.2)
+
+/-- **No lost update after every history**: `no_lost_update` without the invariant hypothesis -/
+theorem no_lost_update_reachable (ops : List (Nat × Op)) (h1 h2 : Nat) (hne : h1 ≠ h2)
+    (t1 t2 : Txn) (ht1 : (reach ops).txns h1 = some t1) (ht2 : (reach ops).txns h2 = some t2)
+    (k : Nat) (v1 v2 : Option Nat) (hw1 : (k, v1) ∈ t1.writes) (hw2 : (k, v2) ∈ t2.writes)
+    (hok : ((reach ops).step h1 .commit).2 = .ok) :
+    (((reach ops).step h1 .commit).1.step h2 .commit).2 = .conflict :=
+  no_lost_update (reach ops) (inv_reachable ops) h1 h2 hne t1 t2 ht1 ht2 k v1 v2 hw1 hw2 hok
+
 /-- non-vacuity: two transactions that both wrote key 1; the first commit succeeds -/
 example :
     let s0 : SI := {}
